@@ -25,6 +25,8 @@ import Mamba.Lemmas.DistanceBiconStatic8
 import Mamba.Lemmas.DistancePatonSound
 import Mamba.Lemmas.DistancePatonCount2
 import Mamba.Lemmas.DistancePatonIndep2
+import Mamba.Lemmas.DistanceGibbsBlock
+import Mamba.Lemmas.DistanceSpanCycle
 /-!
 # C10 — property theorems
 
@@ -576,11 +578,13 @@ Paton's remark that a back edge leads to a vertex at distance one from the tree 
 tree vertex never meets `-1`, all indices are in range, and the `for len(X) > 0` loop terminates within `n + 1`
 iterations — and Gibbs' steps 2–4 return a value on the fundamental cycles it produced.
 Proved separately below: `paton_cycles_sound` (every fundamental cycle is a simple cycle), `paton_cycles_count`
-(`m - n + 1` of them on a connected graph), `paton_cycles_independent` (each has a private non-tree edge).
+(`m - n + 1` of them on a connected graph), `paton_cycles_independent` (each has a private non-tree edge),
+`gibbs_Q_span` (`Q` = all non-empty XOR combinations), `gibbs_sets_even` (all of `Q ⊇ S` has even degrees).
 NOT proved: (a) totality of the last step `numberFound[len(V)]++`, which needs `len(V) ≤ n` for every set `V` kept
-by Gibbs' algorithm, i.e. that every such set is a single cycle (missing lemmas: every cycle of the block is the XOR
-of the fundamental cycles of its non-tree edges; `Q` = all non-empty XOR combinations; an even edge set through the
-new non-tree edge that contains no other element of `R` is a single cycle); (b) correctness: Gibbs' steps keep exactly
+by Gibbs' algorithm, i.e. that every such set is a single cycle (proved: `paton_cycles_span`, every cycle of the
+block is an XOR of fundamental cycles and lies in `Q`; missing lemmas: every edge of a non-empty even edge set lies on
+a simple cycle inside it, hence an even set through the new non-tree edge that contains no other element of `R` is a
+single cycle); (b) correctness: Gibbs' steps keep exactly
 the elements of the cycle space that are single cycles, so that the counts by length are `numCycles g l`
 (`numCycles_spec`). Both are validated per input (`F=ok`, for `m - n ≤ 12`; Go vs reference for `m - n ≤ 14`). -/
 theorem numberOfCycles_phases_total_partial (g : G) (hsym : ∀ u v, g.adj u v = g.adj v u) (bicom : List Nat)
@@ -632,6 +636,59 @@ theorem paton_cycles_independent (a : G) (hsym : ∀ u v, a.adj u v = a.adj v u)
     ∃ es : List Nat, es.length = st.fund.length ∧
       ∀ i j (hi : i < st.fund.length) (hj : j < es.length), es[j] ∈ st.fund[i] ↔ i = j :=
   paton_fund_private a hsym hirr hn fuel st hres
+
+/-- `sortints.XOR` (model `sXor`, the merge loop of the Go code) on strictly increasing lists returns a strictly
+increasing list whose elements are those lying in exactly one argument (symmetric difference). -/
+theorem sortedXor_spec (s t : List Nat) (hs : s.Pairwise (· < ·)) (ht : t.Pairwise (· < ·)) :
+    (Model.sXor s t).Pairwise (· < ·) ∧ ∀ z, z ∈ Model.sXor s t ↔ ((z ∈ s ∧ z ∉ t) ∨ (z ∉ s ∧ z ∈ t)) :=
+  sXor_spec s t hs ht
+
+/-- `NumberOfCycles`, Gibbs' loop, the span: on a block `a`, with `f0 :: fs` the fundamental cycles of Paton's
+phase, the list `Q` at the end of Gibbs' loop is exactly the list of all non-empty XOR combinations of the
+fundamental cycles (`QInv`): every `t ∈ Q` is the XOR (`IsXorOf I t`: strictly increasing, `x ∈ t` iff `x` occurs in
+an odd number of the lists of `I`) of a non-empty sublist `I` of `f0 :: fs`, every non-empty sublist is represented,
+and `|Q| = 2^(number of fundamental cycles) - 1`. A list-algebraic invariant of steps 2 and 4; the fundamental
+cycles are strictly increasing because the edge codes of a cycle are distinct (`cycCodes_nodup`). -/
+theorem gibbs_Q_span (a : G) (hsym : ∀ u v, a.adj u v = a.adj v u) (hirr : ∀ v, a.adj v v = false)
+    (hn : 0 < a.n) (fuel : Nat) (st : Model.PatonSt) (hres : Model.patonLoop a fuel (patonInit a.n) = .ok st)
+    (f0 : List Nat) (fs : List (List Nat)) (hfund : st.fund = f0 :: fs) (gs : Model.GibbsSt)
+    (hg : Model.gibbsLoop fs { S := [f0], Q := [f0] } = .ok gs) :
+    (∀ t ∈ gs.Q, ∃ I, I ≠ [] ∧ I.Sublist (f0 :: fs) ∧ IsXorOf I t) ∧
+    (∀ I, I ≠ [] → I.Sublist (f0 :: fs) → ∃ t ∈ gs.Q, IsXorOf I t) ∧
+    gs.Q.length + 1 = 2 ^ (f0 :: fs).length :=
+  have h := (gibbs_on_block a hsym hirr hn fuel st hres f0 fs hfund gs hg).1
+  ⟨h.sound, h.complete, h.len⟩
+
+/-- `NumberOfCycles`, Gibbs' loop, even sets: every element of `Q` — in particular every set kept in `S`, since
+`S ⊆ Q` (step 3 only removes elements of `R`) — is an edge set in which every vertex of the block has even degree
+(`EvenSet`: `degIn n t w`, the number of codes of `t` that are codes of an edge at `w`, is even). A cycle has degree
+2 on its vertices and 0 elsewhere (`cycle_even`, through the degree formula `path_deg` along a path), and the parity
+of every count is additive under `sXor` (`sXor_countP`). NOT proved: that the sets kept in `S` are single cycles
+(`gibbs_kept_is_cycle`) and that every cycle is kept once; see `numberOfCycles_phases_total_partial`. -/
+theorem gibbs_sets_even (a : G) (hsym : ∀ u v, a.adj u v = a.adj v u) (hirr : ∀ v, a.adj v v = false)
+    (hn : 0 < a.n) (fuel : Nat) (st : Model.PatonSt) (hres : Model.patonLoop a fuel (patonInit a.n) = .ok st)
+    (f0 : List Nat) (fs : List (List Nat)) (hfund : st.fund = f0 :: fs) (gs : Model.GibbsSt)
+    (hg : Model.gibbsLoop fs { S := [f0], Q := [f0] } = .ok gs) :
+    (∀ t ∈ gs.Q, EvenSet a.n t) ∧ (∀ V ∈ gs.S, V ∈ gs.Q) :=
+  (gibbs_on_block a hsym hirr hn fuel st hres f0 fs hfund gs hg).2
+
+/-- `NumberOfCycles`, spanning half of the basis theorem: on a connected simple graph `a` (a block), every simple
+cycle `c` of `a` — as the sorted list of its edge codes — is the XOR of a non-empty set of fundamental cycles of
+Paton's phase, and therefore an element of Gibbs' `Q` (`gibbs_Q_span`). Proof: let `I` be the fundamental cycles
+whose private non-tree edge lies on `c` and `t ∈ Q` their XOR; `t XOR c` has even degrees (`gibbs_sets_even`,
+`cycle_even`), contains no non-tree edge (each non-tree edge lies in exactly one fundamental cycle,
+`paton_cycles_independent`; every edge of `a` is a tree edge or one of these non-tree edges), and an even set of tree
+edges is empty (`tree_even_empty`: the deepest vertex with a tree edge of the set to its parent has degree one);
+so `t = c`. Together with `paton_cycles_count` / `paton_cycles_independent` the fundamental cycles are a basis of the
+cycle space. NOT proved: that Gibbs' step 3 keeps exactly the single cycles among the elements of `Q`. -/
+theorem paton_cycles_span (a : G) (hsym : ∀ u v, a.adj u v = a.adj v u) (hirr : ∀ v, a.adj v v = false)
+    (hn : 0 < a.n) (hconn : ∀ x, x < a.n → Reach a 0 x) (fuel : Nat) (st : Model.PatonSt)
+    (hres : Model.patonLoop a fuel (patonInit a.n) = .ok st)
+    (f0 : List Nat) (fs : List (List Nat)) (hfund : st.fund = f0 :: fs) (gs : Model.GibbsSt)
+    (hg : Model.gibbsLoop fs { S := [f0], Q := [f0] } = .ok gs) (c : List Nat) (hc : IsCycleSeq a c) :
+    Model.sortInts (cycCodes c) ∈ gs.Q ∧
+      ∃ I, I ≠ [] ∧ I.Sublist st.fund ∧ IsXorOf I (Model.sortInts (cycCodes c)) :=
+  cycles_in_Q a hsym hirr hn hconn fuel st hres f0 fs hfund gs hg c hc
 
 /-! ## Invariance under relabelling
 
